@@ -103,7 +103,10 @@ def r2(ctx):
             for bi, t in calls:
                 callee = ctx.facts.body(t["resolved"])
                 for k in range(1, len(t["args"])):
-                    pn = callee.names.get(k + 1)
+                    from lib import _param_positions
+
+                    ppos = _param_positions().get(callee.path)
+                    pn = ppos[k] if ppos and k < len(ppos) else callee.names.get(k + 1)
                     try:
                         pl = param_by_name(b, pn)
                     except AnchorMissing:
